@@ -16,7 +16,8 @@ open KMap
   * `covered`     I4 the pool balance covers all validator totals plus all queued amounts
   * `last_le`     no reward calculation lies in the future (monotone block time)
   * `no_pool`     the pool account never undelegated (nobody signs as `staking_module`)
-  * `bank_wf`     balances stored by the bank are normalised -/
+  * `bank_wf`     balances stored by the bank are normalised
+  * `tinv`        (I5) a validator's total is at least the whole tokens of the sum of the shares of its records -/
 structure Inv (cfg : Cfg) (c : Chain) : Prop where
   sinv : SInv c.st
   sorted : c.st.queue.Pairwise (fun a b => a.payoutAt ≤ b.payoutAt)
@@ -25,6 +26,7 @@ structure Inv (cfg : Cfg) (c : Chain) : Prop where
   last_le : LastLe c.st c.time
   no_pool : ∀ u ∈ c.st.queue, u.delegator ≠ cfg.pool
   bank_wf : BankFacts.WF c.bank
+  tinv : TInv c.st
 
 theorem queueTotal_append (q : List Unbonding) (u : Unbonding) : queueTotal (q ++ [u]) = queueTotal q + u.amount := by
   simp [queueTotal, List.sum_append]
@@ -120,7 +122,7 @@ theorem inv_delegate {cfg : Cfg} {c c' : Chain} {sender : Addr} {v : String} {co
           have hcoin : coin = ⟨c.st.info.bondedDenom, coin.amount⟩ := by cases coin; simp_all
           rw [hcoin] at hb
           refine ⟨sp.sinv hi.sinv, by simpa [sp.queue] using hi.sorted, ?_, ?_, sp.lastle hi.last_le,
-            by simpa [sp.queue] using hi.no_pool, BankFacts.WF_send hi.bank_wf hb⟩
+            by simpa [sp.queue] using hi.no_pool, BankFacts.WF_send hi.bank_wf hb, updateStake_tinv hi.tinv hst⟩
           · simpa [sp.queue, sp.info] using hi.queue_bound
           · have hp := pool_after_send_in hi.bank_wf hs hb
             have := sp.total_add rfl
@@ -146,7 +148,7 @@ theorem inv_undelegate {cfg : Cfg} {c c' : Chain} {sender : Addr} {v : String} {
         unfold removeStake at hst
         split at hst
         · have sp := updateStake_spec hst
-          refine ⟨?_, ?_, ?_, ?_, ?_, ?_, hi.bank_wf⟩
+          refine ⟨?_, ?_, ?_, ?_, ?_, ?_, hi.bank_wf, fun w vi hw => updateStake_tinv hi.tinv hst w vi hw⟩
           · have := sp.sinv hi.sinv
             exact ⟨this.stakers_have, this.stakes_listed, this.comm_le⟩
           · simp only [sp.queue]
@@ -190,7 +192,8 @@ theorem inv_redelegate {cfg : Cfg} {c c' : Chain} {sender : Addr} {v1 v2 : Strin
         · have s1 := updateStake_spec h1
           have s2 := updateStake_spec h2
           refine ⟨s2.sinv (s1.sinv hi.sinv), by simpa [s2.queue, s1.queue] using hi.sorted, ?_, ?_,
-            s2.lastle (s1.lastle hi.last_le), by simpa [s2.queue, s1.queue] using hi.no_pool, hi.bank_wf⟩
+            s2.lastle (s1.lastle hi.last_le), by simpa [s2.queue, s1.queue] using hi.no_pool, hi.bank_wf,
+            updateStake_tinv (updateStake_tinv hi.tinv h1) h2⟩
           · simpa [s2.queue, s1.queue, s2.info, s1.info] using hi.queue_bound
           · have := s1.total_sub rfl
             have := s2.total_add rfl
@@ -209,34 +212,54 @@ theorem inv_redelegate {cfg : Cfg} {c c' : Chain} {sender : Addr} {v1 v2 : Strin
 -- ---------------------------------------------------------------------------------------------
 -- slash
 
-theorem applySlash_facts {s s' : SState} {v : String} {vi : ValInfo} {rem : Dec}
+theorem shareSum_scaleAll_le (m : KMap (Addr × String) Shares) (v : String) (l : List Addr) (rem : Dec)
+    (hrem : rem.atomics ≤ Dec.ONE) (w : String) : shareSum (scaleAll m v l rem) w ≤ shareSum m w := by
+  induction m with
+  | nil => exact Nat.le_refl _
+  | cons p m ih =>
+    have hX : ∃ X : Shares, scaleAll (p :: m) v l rem = (p.1, X) :: scaleAll m v l rem ∧
+        X.stake.atomics ≤ p.2.stake.atomics := by
+      refine ⟨if p.1.2 = v ∧ p.1.1 ∈ l then { p.2 with stake := Dec.mul p.2.stake rem } else p.2, rfl, ?_⟩
+      split
+      · exact Dec.mul_le_left _ _ hrem
+      · exact Nat.le_refl _
+    obtain ⟨X, e, hle⟩ := hX
+    rw [e, shareSum_cons, shareSum_cons]
+    by_cases e2 : p.1.2 = w
+    · simp only [e2, ite_true]; omega
+    · simp only [e2, ite_false]; omega
+
+theorem applySlash_facts {s s' : SState} {v : String} {vi : ValInfo} {rem : Dec} (hi : SInv s) (ht : TInv s)
     (hv : get? s.vinfo v = some vi) (hrem : rem.atomics ≤ Dec.ONE) (h : applySlash s v vi rem = .ok s') :
     s'.info = s.info ∧ s'.validators = s.validators ∧ s'.withdraw = s.withdraw ∧
     s'.queue = slashQueue s.queue v rem ∧ totalStake s'.vinfo ≤ totalStake s.vinfo ∧
     (∀ now, LastLe s now → LastLe s' now) := by
   unfold applySlash at h
   split at h
-  · simp only [Outcome.ok.injEq] at h; subst h
-    refine ⟨rfl, rfl, rfl, rfl, ?_, ?_⟩
-    · have := totalStake_set s.vinfo v vi { vi with stake := 0, stakers := [] } hv
-      simp only at this ⊢; omega
-    · intro now hl w vi2 hw
-      simp only [get?_set] at hw
-      split at hw
-      · simp only [Option.some.injEq] at hw; subst hw; exact hl v vi hv
-      · exact hl w vi2 hw
   · split at h
     · simp only [Outcome.ok.injEq] at h; subst h
       refine ⟨rfl, rfl, rfl, rfl, ?_, ?_⟩
-      · have := totalStake_set s.vinfo v vi { vi with stake := Dec.mulFloor vi.stake rem } hv
-        have := Dec.mulFloor_le vi.stake rem hrem
-        simp only at *; omega
+      · have := totalStake_set s.vinfo v vi { vi with stake := 0, stakers := [] } hv
+        simp only at this ⊢; omega
       · intro now hl w vi2 hw
         simp only [get?_set] at hw
         split at hw
         · simp only [Option.some.injEq] at hw; subst hw; exact hl v vi hv
         · exact hl w vi2 hw
-    · simp at h
+    · simp only [Outcome.ok.injEq] at h; subst h
+      refine ⟨rfl, rfl, rfl, rfl, ?_, ?_⟩
+      · have h1 := totalStake_set s.vinfo v vi
+          { vi with stake := sumShares (scaleAll s.stakes v vi.stakers rem) v vi.stakers / Dec.ONE } hv
+        have h2 : sumShares (scaleAll s.stakes v vi.stakers rem) v vi.stakers / Dec.ONE ≤ vi.stake := by
+          rw [sumShares_eq_shareSum _ _ _ (owners_listed_scaled hi hv vi.stakers rem)]
+          exact Nat.le_trans (Nat.div_le_div_right (shareSum_scaleAll_le _ _ _ _ hrem _)) (ht v vi hv)
+        simp only at h1 ⊢; omega
+      · intro now hl w vi2 hw
+        simp only [get?_set] at hw
+        split at hw
+        · simp only [Option.some.injEq] at hw; subst hw; exact hl v vi hv
+        · exact hl w vi2 hw
+  · simp at h
 
 theorem inv_slash {cfg : Cfg} {c c' : Chain} {v : String} {pct : Dec}
     (hi : Inv cfg c) (h : sudoSlash c v pct = .ok c') : Inv cfg c' := by
@@ -253,8 +276,9 @@ theorem inv_slash {cfg : Cfg} {c c' : Chain} {v : String} {pct : Dec}
         split at hst
         · simp at hst
         · rename_i vi1 hv1
-          obtain ⟨f1, f2, f3, f4, f5, f6⟩ := applySlash_facts hv1 (remOf_le pct) hst
-          refine ⟨SInv_applySlash (SInv_updR hi.sinv ur) hv1 hst, ?_, ?_, ?_, f6 _ (LastLe_updR hi.last_le ur), ?_, hi.bank_wf⟩
+          obtain ⟨f1, f2, f3, f4, f5, f6⟩ := applySlash_facts (SInv_updR hi.sinv ur) (TInv_updR hi.tinv h1) hv1 (remOf_le pct) hst
+          refine ⟨SInv_applySlash (SInv_updR hi.sinv ur) hv1 hst, ?_, ?_, ?_, f6 _ (LastLe_updR hi.last_le ur), ?_, hi.bank_wf,
+            TInv_applySlash (SInv_updR hi.sinv ur) (TInv_updR hi.tinv h1) hv1 hst⟩
           · simp only [f4, ur.queue]; exact sorted_slashQueue _ _ hi.sorted
           · intro u hu
             simp only [f4, ur.queue] at hu
@@ -295,7 +319,7 @@ theorem inv_withdraw {cfg : Cfg} {c c' : Chain} {sender : Addr} {v : String}
           simp only [Outcome.ok.injEq] at h; subst h
           refine ⟨SInv_setRewards (SInv_updR hi.sinv ur) _ sh _ hsh, by simpa [ur.queue] using hi.sorted, ?_, ?_,
             (fun w vi hw => LastLe_updR hi.last_le ur w vi hw), by simpa [ur.queue] using hi.no_pool,
-            BankFacts.WF_mint hi.bank_wf hb⟩
+            BankFacts.WF_mint hi.bank_wf hb, TInv_setRewards (TInv_updR hi.tinv hst) _ sh _ hsh⟩
           · simpa [ur.queue, ur.info] using hi.queue_bound
           · have := pool_after_mint (cfg := cfg) hi.bank_wf hb c.st.info.bondedDenom
             have := ur.total
@@ -315,7 +339,7 @@ theorem inv_setWithdraw {cfg : Cfg} {c c' : Chain} {sender a : Addr}
   · split at h <;>
     · simp only [Outcome.ok.injEq] at h; subst h
       exact ⟨⟨hi.sinv.stakers_have, hi.sinv.stakes_listed, hi.sinv.comm_le⟩, hi.sorted, hi.queue_bound, hi.covered,
-        hi.last_le, hi.no_pool, hi.bank_wf⟩
+        hi.last_le, hi.no_pool, hi.bank_wf, hi.tinv⟩
 
 -- ---------------------------------------------------------------------------------------------
 -- block updates
@@ -348,21 +372,21 @@ theorem dropIfEmpty_facts (s : SState) (u : Unbonding) (rest : List Unbonding) (
 /-- the loop of `process_queue`: under the invariant it never fails, and it re-establishes the invariant for the
 remaining queue, which is a suffix of the old one -/
 theorem processQueue_inv (cfg : Cfg) (now : Nat) : ∀ (q : List Unbonding) (s : SState) (bank : Bank.State),
-    SInv s → LastLe s now → BankFacts.WF bank → (∀ u ∈ q, u.delegator ≠ cfg.pool) →
+    SInv s → TInv s → LastLe s now → BankFacts.WF bank → (∀ u ∈ q, u.delegator ≠ cfg.pool) →
     totalStake s.vinfo + queueTotal q ≤ Bank.queryBalance bank cfg.pool s.info.bondedDenom →
-    ∃ s' bank' pre, processQueue cfg now s bank q = .ok (s', bank') ∧ SInv s' ∧ LastLe s' now ∧ BankFacts.WF bank' ∧
+    ∃ s' bank' pre, processQueue cfg now s bank q = .ok (s', bank') ∧ (SInv s' ∧ TInv s') ∧ LastLe s' now ∧ BankFacts.WF bank' ∧
       q = pre ++ s'.queue ∧ s'.info = s.info ∧ s'.validators = s.validators ∧ s'.withdraw = s.withdraw ∧
       (∀ u ∈ pre, u.payoutAt ≤ now) ∧ (∀ u, s'.queue.head? = some u → now < u.payoutAt) ∧
       totalStake s'.vinfo + queueTotal s'.queue ≤ Bank.queryBalance bank' cfg.pool s'.info.bondedDenom := by
   intro q
   induction q with
   | nil =>
-    intro s bank hi hl hwf _ hcov
-    refine ⟨{ s with queue := [] }, bank, [], rfl, ⟨hi.stakers_have, hi.stakes_listed, hi.comm_le⟩, hl, hwf, rfl, rfl, rfl,
+    intro s bank hi ht hl hwf _ hcov
+    refine ⟨{ s with queue := [] }, bank, [], rfl, ⟨⟨hi.stakers_have, hi.stakes_listed, hi.comm_le⟩, ht⟩, hl, hwf, rfl, rfl, rfl,
       rfl, by simp, by simp, ?_⟩
     simpa [queueTotal] using hcov
   | cons u rest ih =>
-    intro s bank hi hl hwf hnp hcov
+    intro s bank hi ht hl hwf hnp hcov
     unfold processQueue
     by_cases hdue : u.payoutAt ≤ now
     · simp only [hdue, ite_true]
@@ -373,7 +397,8 @@ theorem processQueue_inv (cfg : Cfg) (now : Nat) : ∀ (q : List Unbonding) (s :
       by_cases hz : u.amount = 0
       · simp only [hz, ite_true]
         obtain ⟨s', bank', pre, h1, h2, h3, h4, h5, h6, h7, h8, h9, h10, h11⟩ :=
-          ih (dropIfEmpty s u rest) bank (SInv_dropIfEmpty hi u rest) (d5 now hl) hwf hnp' (by rw [d1]; omega)
+          ih (dropIfEmpty s u rest) bank (SInv_dropIfEmpty hi u rest) (TInv_dropIfEmpty hi ht u rest) (d5 now hl) hwf hnp'
+            (by rw [d1]; omega)
         refine ⟨s', bank', u :: pre, h1, h2, h3, h4, by rw [h5]; rfl, h6.trans d1, h7.trans d2, h8.trans d3, ?_, h10, h11⟩
         intro x hx
         rcases List.mem_cons.mp hx with rfl | hx
@@ -384,7 +409,8 @@ theorem processQueue_inv (cfg : Cfg) (now : Nat) : ∀ (q : List Unbonding) (s :
         rw [hb1]
         have hp := pool_after_send_out hwf (hnp u List.mem_cons_self) hb1
         obtain ⟨s', bank', pre, h1, h2, h3, h4, h5, h6, h7, h8, h9, h10, h11⟩ :=
-          ih (dropIfEmpty s u rest) bank1 (SInv_dropIfEmpty hi u rest) (d5 now hl) (BankFacts.WF_send hwf hb1) hnp'
+          ih (dropIfEmpty s u rest) bank1 (SInv_dropIfEmpty hi u rest) (TInv_dropIfEmpty hi ht u rest) (d5 now hl)
+            (BankFacts.WF_send hwf hb1) hnp'
             (by rw [d1]; omega)
         refine ⟨s', bank', u :: pre, h1, h2, h3, h4, by rw [h5]; rfl, h6.trans d1, h7.trans d2, h8.trans d3, ?_, h10, h11⟩
         intro x hx
@@ -392,7 +418,7 @@ theorem processQueue_inv (cfg : Cfg) (now : Nat) : ∀ (q : List Unbonding) (s :
         · exact hdue
         · exact h9 x hx
     · simp only [hdue, ite_false]
-      refine ⟨{ s with queue := u :: rest }, bank, [], rfl, ⟨hi.stakers_have, hi.stakes_listed, hi.comm_le⟩, hl, hwf,
+      refine ⟨{ s with queue := u :: rest }, bank, [], rfl, ⟨⟨hi.stakers_have, hi.stakes_listed, hi.comm_le⟩, ht⟩, hl, hwf,
         rfl, rfl, rfl, rfl, by simp, ?_, hcov⟩
       intro x hx
       simp only [List.head?_cons, Option.some.injEq] at hx
@@ -402,12 +428,12 @@ theorem inv_advance {cfg : Cfg} {c : Chain} (secs : Nat) (hi : Inv cfg c) :
     ∃ c', advance cfg c secs = .ok c' ∧ Inv cfg c' ∧ c'.time = c.time + secs := by
   have hl : LastLe c.st (c.time + secs) := fun w vi hw => Nat.le_trans (hi.last_le w vi hw) (Nat.le_add_right _ _)
   obtain ⟨s', bank', pre, h1, h2, h3, h4, h5, h6, h7, h8, h9, h10, h11⟩ :=
-    processQueue_inv cfg (c.time + secs) c.st.queue c.st c.bank hi.sinv hl hi.bank_wf hi.no_pool hi.covered
+    processQueue_inv cfg (c.time + secs) c.st.queue c.st c.bank hi.sinv hi.tinv hl hi.bank_wf hi.no_pool hi.covered
   refine ⟨{ st := s', bank := bank', time := c.time + secs, height := c.height + 1 }, ?_, ?_, rfl⟩
   · unfold advance; rw [h1]
   · have hs := hi.sorted
     rw [h5, List.pairwise_append] at hs
-    refine ⟨h2, hs.2.1, ?_, h11, h3, ?_, h4⟩
+    refine ⟨h2.1, hs.2.1, ?_, h11, h3, ?_, h4, h2.2⟩
     · intro u hu
       have := hi.queue_bound u (by rw [h5]; exact List.mem_append_right _ hu)
       simp only [h6]; omega
@@ -421,14 +447,12 @@ theorem applySlash_no_panic {s : SState} {v : String} {vi : ValInfo} (rem : Dec)
     (hv : get? s.vinfo v = some vi) : applySlash s v vi rem ≠ .panic ∧ applySlash s v vi rem ≠ .outOfFuel := by
   unfold applySlash
   split
-  · simp
-  · split
-    · simp
-    · rename_i hall
-      exfalso; apply hall
-      simp only [allStakersExist, List.all_eq_true, contains]
-      intro d hd
-      exact hi.stakers_have v vi d hv hd
+  · split <;> simp
+  · rename_i hall
+    exfalso; apply hall
+    simp only [allStakersExist, List.all_eq_true, contains]
+    intro d hd
+    exact hi.stakers_have v vi d hv hd
 
 /-- a valid operation: the pool account itself does not delegate or undelegate -/
 def Op.okFor (cfg : Cfg) : Op → Prop
@@ -611,7 +635,8 @@ theorem runAll_inv {cfg : Cfg} : ∀ (ops : List Op) (c : Chain), Inv cfg c → 
 /-- the freshly set-up chain (any parameters, any validators with commissions ≤ 1 added at time 0, any normalised
 bank) satisfies the invariant -/
 theorem inv_init (cfg : Cfg) : Inv cfg ⟨SState.init, [], 0, 0⟩ := by
-  refine ⟨⟨?_, ?_, ?_⟩, List.Pairwise.nil, by simp [SState.init], ?_, ?_, by simp [SState.init], BankFacts.WF_empty⟩
+  refine ⟨⟨?_, ?_, ?_⟩, List.Pairwise.nil, by simp [SState.init], ?_, ?_, by simp [SState.init], BankFacts.WF_empty,
+    fun w vi h => by simp [SState.init] at h⟩
   · intro v vi d h; simp [SState.init] at h
   · intro d v sh h; simp [SState.init] at h
   · intro vo h; simp [SState.init] at h
@@ -643,7 +668,8 @@ theorem totalStake_fresh (vals : List Validator) (t : Nat) :
 theorem inv_fresh (cfg : Cfg) (info : StakingInfo) (vals : List Validator) (bank : Bank.State) (t h : Nat)
     (hc : ∀ vo ∈ vals, vo.commission.atomics ≤ Dec.ONE) (hwf : BankFacts.WF bank) :
     Inv cfg (freshChain info vals bank t h) := by
-  refine ⟨⟨?_, ?_, hc⟩, List.Pairwise.nil, by simp [freshChain], ?_, ?_, by simp [freshChain], hwf⟩
+  refine ⟨⟨?_, ?_, hc⟩, List.Pairwise.nil, by simp [freshChain], ?_, ?_, by simp [freshChain], hwf,
+    fun w vi _ => by simp [freshChain, shareSum_nil]⟩
   · intro v vi d hv hd
     have := get?_fresh_vinfo vals t v vi hv
     subst this; simp [ValInfo.new] at hd
